@@ -352,7 +352,16 @@ class Unit:
                 desugared += recs
             if "methods" in item:
                 header_mode = item.get("header", "repo")
-                cont = find_item(loc, relfile, item["path"]) if header_mode == "repo" else None
+                cont = None
+                if header_mode == "repo":
+                    cands = [c for c in loc["by_path"].get(item["path"], []) if not c["path"].startswith("mod tests::")]
+                    if len(cands) > 1:
+                        # several impl blocks with the same header: take the one enclosing the first requested method
+                        first = find_item(loc, relfile, item["path"] + "::" + item["methods"][0])
+                        cands = [c for c in cands if c["start"] <= first["start"] and first["end"] <= c["end"]]
+                    if len(cands) != 1:
+                        raise Undecided(f"lost anchor: container `{item['path']}` not found (or ambiguous) in {relfile}")
+                    cont = cands[0]
                 src = loc["src"]
                 parts = []
                 cspec = specs.get(iid)
